@@ -177,3 +177,28 @@ theorem read_correct (dict : Lookup) (bs : Bytes) (s : SMsg) : Spec.read dict bs
     rw [if_pos (by rw [hp.size, hlen, hbody]; rfl), ha]
 
 end Dia
+
+namespace Dia
+open Spec
+
+/-- what the encoder produces for a consistent, typed message is a frame that an independent reader reads back as
+exactly that content -/
+theorem enc_parses (dict : Lookup) (m : Msg) (hg : m.Good) (hcmd : cmdKnown m.cmd = true) (happ : appKnown m.app = true)
+    (hty : TypedList dict m.avps) (h24 : m.length < 16777216) : Parses dict (Spec.encode m.abs) m.abs := by
+  have hs := Msg.enc_spec m hg.wf hg.cons hg.len h24
+  have hls := encList_spec m.avps hg.wf hg.cons
+  have hfix := encList_fix m.avps hg.wf hg.cons (by rw [hls])
+  rw [hls] at hfix
+  simp only at hfix
+  have hmask : m.abs.mask = List.replicate 20 .keep ++ maskList m.avps := by
+    simp only [SMsg.mask, Msg.abs, absList_mask m.avps hg.wf hg.cons]
+  refine ⟨hcmd, happ, absList_valid m.avps hg.wf hg.cons, (absList_typed dict m.avps).mpr hty, by rw [hs.2]; exact h24,
+    rfl, ?_⟩
+  have hsplit : Spec.encode m.abs = m.hdrBytes ++ encodeAvps (absList m.avps) := by
+    have hbl := encodeAvps_length m.avps hg.wf hg.cons
+    simp only [Spec.encode, Msg.hdrBytes, Msg.abs, hbl, hg.len, u24be_eq, u32be_eq]
+    simp
+  have hh20 : m.hdrBytes.length = 20 := by simp [Msg.hdrBytes]
+  rw [hmask, hsplit, applyMask_append _ _ _ _ (by simp [hh20]), applyMask_keep' _ 20 hh20, hfix]
+
+end Dia
